@@ -6,6 +6,7 @@
 #include <etl/_config/all.hpp>
 
 #include <etl/_3rd_party/gcem/gcem.hpp>
+#include <etl/_limits/numeric_limits.hpp>
 #include <etl/_type_traits/is_constant_evaluated.hpp>
 #include <etl/_type_traits/is_same.hpp>
 
@@ -16,7 +17,21 @@ namespace detail {
 template <typename T>
 [[nodiscard]] constexpr auto remainder(T x, T y) noexcept -> T
 {
-    if (not is_constant_evaluated()) {
+    if (is_constant_evaluated()) {
+        constexpr auto inf = numeric_limits<T>::infinity();
+        if (x != x or y != y or x == inf or x == -inf or y == T(0)) {
+            return numeric_limits<T>::quiet_NaN();
+        }
+        if (y == inf or y == -inf) {
+            return x;
+        }
+    }
+#if defined(TETL_COMPILER_GCC)
+    constexpr auto folds = true; // GCC folds the remainder builtins (exact) in constant evaluation for finite x and finite y != 0
+#else
+    constexpr auto folds = false;
+#endif
+    if (folds or not is_constant_evaluated()) {
         if constexpr (is_same_v<T, float>) {
 #if __has_builtin(__builtin_remainderf)
             return __builtin_remainderf(x, y);
